@@ -14,7 +14,7 @@ Proof. apply forallb_forall. exact gated_domain. Qed.
 Lemma domain_complete : forall c k s o b, In (c, k, s, o, b) domain.
 Proof.
   intros c k s o b. unfold domain.
-  apply in_flat_map. exists c. split. { destruct c as [[] [] []]; cbn; tauto. }
+  apply in_flat_map. exists c. split. { destruct c as [[] [] [] [] [] []]; vm_compute; tauto. }
   apply in_flat_map. exists k. split. { destruct k; cbn; tauto. }
   apply in_flat_map. exists s. split. { destruct s; cbn; tauto. }
   apply in_flat_map. exists o. split. { destruct o; cbn; tauto. }
@@ -29,42 +29,59 @@ Lemma no_request_unless_enabled : forall u c k s o b rq out,
   requests c (A k u) s o b = (rq, out) ->
   (forall v, In (RManifest v) rq -> v = u /\ rmf c = true /\ remote_only k = true) /\
   (In ROcsp rq -> ocspf c = true \/ csf c = true) /\
-  (In RTsa rq -> s = STsa).
+  (In RTsa rq -> s = STsa) /\
+  (In RTsaIng rq -> ats_on c = true /\ s = STsa).
 Proof.
-  intros u [[] [] []] k s o b rq out H; destruct k, s, o, b; cbn in H; inversion H; subst; clear H; cbn;
-    (split; [intros v Hv | split; intros Hv]);
+  (* the auto-timestamp settings are only looked at when signing with a TSA signer: split on them only there *)
+  intros u [[] [] [] e1 e2 e3] k s o b rq out H;
+    (destruct o, s;
+     [ destruct k, b | destruct k, b | destruct k, b | destruct k, b | destruct k, b | destruct e1, e2, e3, k, b ]);
+    cbn in H; inversion H; subst; clear H; cbn;
+    (split; [intros v Hv | split; [intros Hv | split; intros Hv]]);
     repeat (destruct Hv as [Hv | Hv]; [try discriminate; try (inversion Hv; subst)|]); try contradiction; auto.
 Qed.
 
 Lemma remote_only_error : forall u c k s b,
   rmf c = false -> remote_only k = true -> requests c (A k u) s OpRead b = ([], OErrRemoteUrl u).
-Proof. intros u [r o f] k s b H K. cbn in H. subst r. destruct k; try discriminate; reflexivity. Qed.
+Proof. intros u [r o f e1 e2 e3] k s b H K. cbn in H. subst r. destruct k; try discriminate; reflexivity. Qed.
 
 (* ... and the same assets with fetching enabled ask for exactly that URL, once *)
 Lemma remote_only_fetch : forall u c k s b,
   rmf c = true -> remote_only k = true ->
   exists rest, fst (requests c (A k u) s OpRead b) = RManifest u :: rest /\ existsb is_manifest rest = false.
 Proof.
-  intros u [r o f] k s b H K. cbn in H. subst r.
+  intros u [r o f e1 e2 e3] k s b H K. cbn in H. subst r.
   destruct k; try discriminate; destruct b, o; eexists; split; reflexivity.
 Qed.
 
 (* an embedded manifest is never replaced by a remote one: no manifest request whatever the settings *)
 Lemma embedded_never_fetches : forall u c k s o b,
   has_embedded k = true -> existsb is_manifest (fst (requests c (A k u) s o b)) = false.
-Proof. intros u [[] [] []] k s o b H; destruct k; try discriminate; destruct s, o, b; reflexivity. Qed.
+Proof. intros u [[] [] [] [] [] []] k s o b H; destruct k; try discriminate; destruct s, o, b; reflexivity. Qed.
 
 (* everything off: nothing at all *)
-Lemma all_off_silent : forall u k o b,
-  fst (requests (C false false false) (A k u) SNoTsa o b) = [].
-Proof. intros u k o b. destruct k, o, b; reflexivity. Qed.
+Lemma all_off_silent : forall u k o b sk sc,
+  fst (requests (C false false false false sk sc) (A k u) SNoTsa o b) = [].
+Proof. intros u k o b sk sc. destruct k, o, b, sk, sc; reflexivity. Qed.
 
 (* stapled responses (after fix fb08c71da): a usable, conclusive staple settles revocation without any request;
    a staple that is present but unusable does not suppress the fetch that verify.ocsp_fetch asks for *)
 Lemma usable_staple_settles : forall u c s o b,
   existsb is_ocsp (fst (requests c (A AEmbeddedStapled u) s o b)) = false.
-Proof. intros u [[] [] []] s o b; destruct s, o, b; reflexivity. Qed.
+Proof. intros u [[] [] [] [] [] []] s o b; destruct s, o, b; reflexivity. Qed.
 
 Lemma unusable_staple_falls_through : forall u c s b,
   existsb is_ocsp (fst (requests c (A AEmbeddedStapledUnusable u) s OpRead b)) = ocspf c.
-Proof. intros u [[] [] []] s b; destruct s, b; reflexivity. Qed.
+Proof. intros u [[] [] [] [] [] []] s b; destruct s, b; reflexivity. Qed.
+
+(* ingredient manifests are time-stamped only when builder.auto_timestamp_assertion.enabled is set (and the signer
+   names a time-stamp authority): with enabled = false no such request, whatever skip_existing and fetch_scope say *)
+Lemma no_ingredient_timestamp_unless_enabled : forall u c k s o b,
+  ats_on c = false -> existsb is_tsa_ing (fst (requests c (A k u) s o b)) = false.
+Proof. intros u [[] [] [] e [] []] k s o b H; cbn in H; subst e; destruct k, s, o, b; reflexivity. Qed.
+
+(* ... and when it is enabled the request is made exactly for claims not excluded by skip_existing *)
+Lemma ingredient_timestamp_when_enabled : forall u rm oc cs sk sc b,
+  fst (requests (C rm oc cs true sk sc) (A ARemoteEmbedded u) STsa OpSign b) = [RTsaIng] /\
+  existsb is_tsa_ing (fst (requests (C rm oc cs true sk sc) (A AEmbedded u) STsa OpSign b)) = negb sk.
+Proof. intros u [] [] [] [] [] []; split; reflexivity. Qed.
